@@ -573,18 +573,22 @@ Proof.
   split; [vm_compute; reflexivity|]. discriminate.
 Qed.
 
-(* uuid_default_whitespace: UUID() tolerates surrounding whitespace (int() strips it), so a newline reaches the hand-quoted literal;
-   a hand-quoted default of the date-time kind is not acceptable at all *)
-Theorem uuid_default_whitespace_refuted :
+(* hand-quoted defaults (the OLD emission rule of the uuid kind, finding uuid_default_whitespace, since repaired; and the rule a change could
+   reintroduce for any validated kind): the text UUID() / isoparse accept can carry a newline resp. a quote, which a hand-quoted literal does not
+   survive, so NO hand-quoted default site is acceptable; the same texts are data when emitted through repr *)
+Theorem handquoted_default_refuted :
   slot_guard (mk CSQ SNone "Schema.default@prop-uuid" "models/*.py") (10 :: s2l "0000000-aaaa-4bbb-8ccc-dddddddddddd") = false /\
   lex_body SQ ((10 :: s2l "0000000-aaaa-4bbb-8ccc-dddddddddddd") ++ [SQ]) = None /\
-  site_safe (mk CSQ SNone "Schema.default@prop-uuid" "models/*.py") = true /\
+  slot_guard (mk CSQ SNone "Schema.default@prop-datetime" "models/*.py") (s2l "2020-01-01'10:00:00") = false /\
+  site_safe (mk CSQ SNone "Schema.default@prop-uuid" "models/*.py") = false /\
+  site_safe (mk CSQ SNone "Schema.default@query-uuid" "api/*/*.py") = false /\
   site_safe (mk CSQ SNone "Schema.default@prop-datetime" "models/*.py") = false /\
   site_safe (mk CSQ SNone "Schema.default@query-datetime" "api/*/*.py") = false /\
   site_safe (mk CSQ SNone "Schema.default@prop-date" "models/*.py") = false /\
+  site_safe (mk CSQ SRepr "Schema.default@prop-uuid" "models/*.py") = true /\
   site_safe (mk CSQ SRepr "Schema.default@prop-datetime" "models/*.py") = true /\
-  slot_guard (mk CSQ SRepr "Schema.default@prop-datetime" "models/*.py") (s2l "2020-01-01'10:00:00") = true /\
-  slot_guard (mk CSQ SNone "Schema.default@prop-datetime" "models/*.py") (s2l "2020-01-01'10:00:00") = false.
+  slot_guard (mk CSQ SRepr "Schema.default@prop-uuid" "models/*.py") (10 :: s2l "0000000-aaaa-4bbb-8ccc-dddddddddddd") = true /\
+  slot_guard (mk CSQ SRepr "Schema.default@prop-datetime" "models/*.py") (s2l "2020-01-01'10:00:00") = true.
 Proof. vm_compute. repeat split; reflexivity. Qed.
 
 (* raw_fallback: the raw-name fallback keeps the delimiters space, dash, dot; every other symbol is removed *)
